@@ -1,743 +1,206 @@
 /-
-C16 — List operations agree with sequence semantics in all four list encodings
+C16 — List operations agree with sequence semantics in all four list encodings (final file).
 
-"List operations agree with sequence semantics in all four list encodings: For all short lists of
-numerals, nil/cons/head/tail/is_nil of the pair, Church, Scott and Parigot list modules behave as
-constructors and observers of sequences (is_nil is TRUE exactly on the empty list, head and tail of
-a cons return its parts - also for arbitrary, non-numeral element and tail terms), and the list
-conversions produce exactly what repeated cons produces. Every pair-list library function (length,
-index, reverse, list, append, map, foldl, foldr, filter, last, init, zip, zip_with, take,
-take_while, drop, drop_while, replicate) normalises to the encoding of the result of the
-corresponding operation on native vectors, under NOR, HNO and HAP."
-
-Three layers, as in C13/C14 (see LC/Props/C13.lean).  `Computes t n` (Proofs/Layer2.lean) packages,
-for ALL arguments (lists of ANY length — the property's "short" is only needed for layer 3):
-  conv   : t ↠ n                      (layer 1: by induction, Proofs/List/{Basic,PairLibA,PairLibB}.lean)
-  normal : n is a β-normal form
-  nor/hno: reduce NOR / HNO with limit 0 return exactly n for some fuel, i.e. they TERMINATE (C07)
-  any    : whenever reduce under NOR, HNO, APP or HAP with limit 0 returns at all, it returns n (C06)
-Layer 3 (BOUNDED, labelled as such): termination of HAP with the right result on a finite grid of
-short lists, by evaluating the verified model reducer in the kernel.
-
-§A  constructors/observers of the four encodings: laws for ARBITRARY (open, non-numeral) payload
-    terms, observers on the `Vec` conversions, conversions = repeated cons.
-§B  the pair-list library on lists of Church numerals `cl ns = pairList (ns.map intoChurch)` (what
-    the Rust `vec![..].into_pair_list()` of numerals builds), the higher-order functions for ANY
-    closed function term whose action on numerals is known (+ the concrete instances), and the
-    general layer-1 forms for arbitrary closed element terms (`C16_*_terms`).
-§C  layer 3 grids (HAP).
-§D  non-vacuity examples.
-The operations are the GENERATED constants `Gen.PList/CList/SList/GList.*`, re-extracted from the
-Rust source on every run, mentioned by name only.
+The property text, layers 1 and 2 (`Computes`: convergence for ALL lists, termination of NOR and HNO, uniqueness of
+the result under every normalising order), the laws for arbitrary payload terms and the small HAP cross-check grids are in
+LC/Props/C16Base.lean.  THIS file adds the third order the property names, **HAP, unbounded**: for lists of ANY length,
+`reduce .HAP 0` (hybrid applicative order, no step limit) RETURNS the expected encoding — for the observers and
+conversions of all four list encodings and for every pair-list library function (with the Church operations of C13 as
+the function arguments of the higher-order ones).  Proofs: big-step eager semantics `EvalHap` (Proofs/Eager/BigStep.lean,
+adequate for the model reducer: `EvalHap.reduce`), one derivation per function by induction on the list
+(Proofs/Eager/ListA.lean, ListB.lean).  The theorems below only restate those results under the property's name.
 -/
-import LC.Proofs.Layer2
-import LC.Proofs.Grid
-import LC.Proofs.List.Basic
-import LC.Proofs.List.PairLibA
-import LC.Proofs.List.PairLibB
-import LC.Proofs.Num.ChurchA
-import LC.Props.C12
-import LC.Props.C13
+import LC.Props.C16Base
+import LC.Proofs.Eager.ListA
+import LC.Proofs.Eager.ListB
 
 namespace LC
-open Term Spec Enc
-
-/-! ## A. constructors and observers, four encodings -/
-
-/-! ### A.1 laws for ARBITRARY payload terms `a x` (open or closed, numeral or not) -/
-
-theorem C16_head_cons_pair (a x : Term) : app Gen.PList.head (app2 Gen.PList.cons a x) ↠ a :=
-  head_cons_pair a x
-theorem C16_head_cons_scott (a x : Term) : app Gen.SList.head (app2 Gen.SList.cons a x) ↠ a :=
-  head_cons_scott a x
-theorem C16_head_cons_parigot (a x : Term) : app Gen.GList.head (app2 Gen.GList.cons a x) ↠ a :=
-  head_cons_parigot a x
-/-- also for the fold-encoded list the head law holds for an ARBITRARY tail term -/
-theorem C16_head_cons_church (a x : Term) : app Gen.CList.head (app2 Gen.CList.cons a x) ↠ a :=
-  head_cons_church_any a x
-
-theorem C16_tail_cons_pair (a x : Term) : app Gen.PList.tail (app2 Gen.PList.cons a x) ↠ x :=
-  tail_cons_pair a x
-theorem C16_tail_cons_scott (a x : Term) : app Gen.SList.tail (app2 Gen.SList.cons a x) ↠ x :=
-  tail_cons_scott a x
-theorem C16_tail_cons_parigot (a x : Term) : app Gen.GList.tail (app2 Gen.GList.cons a x) ↠ x :=
-  tail_cons_parigot a x
-
-/-- Church (fold) list: `TAIL` rebuilds the tail by FOLDING the list, so `tail (cons a x) ↠ x` can only
-hold when `x` is itself a list; here: the conversion of any `Vec` of closed terms.  For a non-list `x` the
-law is refuted below (`C16_tail_cons_church_needs_list`). -/
-theorem C16_tail_cons_church (a : Term) (ts : List Term) (ha : Closed a) (h : ∀ t ∈ ts, Closed t) :
-    app Gen.CList.tail (app2 Gen.CList.cons a (churchList ts)) ↠ churchList ts :=
-  tail_cons_church a ts ha h
-
-/-- for a FOLD-encoded list `tail (cons a x) ↠ x` cannot hold for a non-list `x`: it fails for the open
-term `x := var 7` and for the closed normal term `x := I` -/
-theorem C16_tail_cons_church_needs_list :
-    (¬ app Gen.CList.tail (app2 Gen.CList.cons (var 1) (var 7)) ↠ var 7) ∧
-    (¬ app Gen.CList.tail (app2 Gen.CList.cons (var 1) Gen.Comb.I) ↠ Gen.Comb.I) :=
-  ⟨tail_cons_church_fails_open, tail_cons_church_fails_closed⟩
-
-theorem C16_is_nil_nil_pair : app Gen.PList.is_nil Gen.PList.nil ↠ fromBool true := is_nil_nil_pair
-theorem C16_is_nil_nil_church : app Gen.CList.is_nil Gen.CList.nil ↠ fromBool true := is_nil_nil_church
-theorem C16_is_nil_nil_scott : app Gen.SList.is_nil Gen.SList.nil ↠ fromBool true := is_nil_nil_scott
-theorem C16_is_nil_nil_parigot : app Gen.GList.is_nil Gen.GList.nil ↠ fromBool true := is_nil_nil_parigot
-
-theorem C16_is_nil_cons_pair (a x : Term) :
-    app Gen.PList.is_nil (app2 Gen.PList.cons a x) ↠ fromBool false := is_nil_cons_pair a x
-theorem C16_is_nil_cons_church (a x : Term) :
-    app Gen.CList.is_nil (app2 Gen.CList.cons a x) ↠ fromBool false := is_nil_cons_church a x
-theorem C16_is_nil_cons_scott (a x : Term) :
-    app Gen.SList.is_nil (app2 Gen.SList.cons a x) ↠ fromBool false := is_nil_cons_scott a x
-theorem C16_is_nil_cons_parigot (a x : Term) :
-    app Gen.GList.is_nil (app2 Gen.GList.cons a x) ↠ fromBool false := is_nil_cons_parigot a x
-
-/-! ### A.2 observers on the `Vec` conversions (lists of closed terms, any length) -/
-
-theorem C16_head_pairList (t : Term) (ts : List Term) (ht : Closed t) (hts : ∀ u ∈ ts, Closed u) :
-    app Gen.PList.head (pairList (t :: ts)) ↠ t := head_pairList t ts ht hts
-theorem C16_tail_pairList (t : Term) (ts : List Term) (ht : Closed t) (hts : ∀ u ∈ ts, Closed u) :
-    app Gen.PList.tail (pairList (t :: ts)) ↠ pairList ts := tail_pairList t ts ht hts
-theorem C16_is_nil_pairList (ts : List Term) (h : ∀ t ∈ ts, Closed t) :
-    app Gen.PList.is_nil (pairList ts) ↠ fromBool ts.isEmpty := is_nil_pairList ts h
-
-theorem C16_head_churchList (t : Term) (ts : List Term) (ht : Closed t) (hts : ∀ u ∈ ts, Closed u) :
-    app Gen.CList.head (churchList (t :: ts)) ↠ t := head_churchList t ts ht hts
-theorem C16_tail_churchList (t : Term) (ts : List Term) (ht : Closed t) (hts : ∀ u ∈ ts, Closed u) :
-    app Gen.CList.tail (churchList (t :: ts)) ↠ churchList ts := tail_churchList t ts ht hts
-theorem C16_is_nil_churchList (ts : List Term) (h : ∀ t ∈ ts, Closed t) :
-    app Gen.CList.is_nil (churchList ts) ↠ fromBool ts.isEmpty := is_nil_churchList ts h
-
-theorem C16_head_scottList (t : Term) (ts : List Term) (ht : Closed t) (hts : ∀ u ∈ ts, Closed u) :
-    app Gen.SList.head (scottList (t :: ts)) ↠ t := head_scottList t ts ht hts
-theorem C16_tail_scottList (t : Term) (ts : List Term) (ht : Closed t) (hts : ∀ u ∈ ts, Closed u) :
-    app Gen.SList.tail (scottList (t :: ts)) ↠ scottList ts := tail_scottList t ts ht hts
-theorem C16_is_nil_scottList (ts : List Term) (h : ∀ t ∈ ts, Closed t) :
-    app Gen.SList.is_nil (scottList ts) ↠ fromBool ts.isEmpty := is_nil_scottList ts h
-
-theorem C16_head_parigotList (t : Term) (ts : List Term) (ht : Closed t) (hts : ∀ u ∈ ts, Closed u) :
-    app Gen.GList.head (parigotList (t :: ts)) ↠ t := head_parigotList t ts ht hts
-theorem C16_tail_parigotList (t : Term) (ts : List Term) (ht : Closed t) (hts : ∀ u ∈ ts, Closed u) :
-    app Gen.GList.tail (parigotList (t :: ts)) ↠ parigotList ts := tail_parigotList t ts ht hts
-theorem C16_is_nil_parigotList (ts : List Term) (h : ∀ t ∈ ts, Closed t) :
-    app Gen.GList.is_nil (parigotList ts) ↠ fromBool ts.isEmpty := is_nil_parigotList ts h
-
-namespace C16
-
-theorem normal_fromBool (b : Bool) : isNormal (fromBool b) = true := C13.normal_fromBool b
-
-theorem closed_tail {t : Term} {ts : List Term} (h : ∀ u ∈ t :: ts, Closed u) : ∀ u ∈ ts, Closed u :=
-  fun u hu => h u (List.mem_cons_of_mem _ hu)
-theorem normal_tail {t : Term} {ts : List Term} (h : ∀ u ∈ t :: ts, isNormal u = true) :
-    ∀ u ∈ ts, isNormal u = true :=
-  fun u hu => h u (List.mem_cons_of_mem _ hu)
-
-/-- the three observers of one list encoding, lifted to the reducer, on the conversion `conv` of ANY list of closed
-normal terms (in particular: numerals of any encoding) -/
-structure ObserversCompute (head tail isNil : Term) (conv : List Term → Term) : Prop where
-  head : ∀ (t : Term) (ts : List Term), (∀ u ∈ t :: ts, Closed u) → (∀ u ∈ t :: ts, isNormal u = true) →
-    Computes (app head (conv (t :: ts))) t
-  tail : ∀ (t : Term) (ts : List Term), (∀ u ∈ t :: ts, Closed u) → (∀ u ∈ t :: ts, isNormal u = true) →
-    Computes (app tail (conv (t :: ts))) (conv ts)
-  is_nil : ∀ ts : List Term, (∀ u ∈ ts, Closed u) → Computes (app isNil (conv ts)) (fromBool ts.isEmpty)
-
-end C16
-open C16
-
-/-- layers 1+2 for the observers, pair list -/
-theorem C16_observers_pair : ObserversCompute Gen.PList.head Gen.PList.tail Gen.PList.is_nil pairList where
-  head t ts hc hn := computes_of_star (head_pairList t ts (hc t (by simp)) (closed_tail hc)) (hn t (by simp))
-  tail t ts hc hn := computes_of_star (tail_pairList t ts (hc t (by simp)) (closed_tail hc))
-    (normal_pairList ts (normal_tail hn))
-  is_nil ts hc := computes_of_star (is_nil_pairList ts hc) (normal_fromBool _)
-
-/-- layers 1+2 for the observers, Church (fold) list -/
-theorem C16_observers_church : ObserversCompute Gen.CList.head Gen.CList.tail Gen.CList.is_nil churchList where
-  head t ts hc hn := computes_of_star (head_churchList t ts (hc t (by simp)) (closed_tail hc)) (hn t (by simp))
-  tail t ts hc hn := computes_of_star (tail_churchList t ts (hc t (by simp)) (closed_tail hc))
-    (normal_churchList ts (normal_tail hn))
-  is_nil ts hc := computes_of_star (is_nil_churchList ts hc) (normal_fromBool _)
-
-/-- layers 1+2 for the observers, Scott list -/
-theorem C16_observers_scott : ObserversCompute Gen.SList.head Gen.SList.tail Gen.SList.is_nil scottList where
-  head t ts hc hn := computes_of_star (head_scottList t ts (hc t (by simp)) (closed_tail hc)) (hn t (by simp))
-  tail t ts hc hn := computes_of_star (tail_scottList t ts (hc t (by simp)) (closed_tail hc))
-    (normal_scottList ts (normal_tail hn))
-  is_nil ts hc := computes_of_star (is_nil_scottList ts hc) (normal_fromBool _)
-
-/-- layers 1+2 for the observers, Parigot list -/
-theorem C16_observers_parigot :
-    ObserversCompute Gen.GList.head Gen.GList.tail Gen.GList.is_nil parigotList where
-  head t ts hc hn := computes_of_star (head_parigotList t ts (hc t (by simp)) (closed_tail hc)) (hn t (by simp))
-  tail t ts hc hn := computes_of_star (tail_parigotList t ts (hc t (by simp)) (closed_tail hc))
-    (normal_parigotList ts (normal_tail hn))
-  is_nil ts hc := computes_of_star (is_nil_parigotList ts hc) (normal_fromBool _)
-
-/-! ### A.3 the conversions produce exactly what repeated `cons` produces -/
-
-theorem C16_conv_is_cons_pair (ts : List Term) (h : ∀ t ∈ ts, Closed t) :
-    ts.foldr (fun t acc => app2 Gen.PList.cons t acc) Gen.PList.nil ↠ pairList ts := conv_is_cons_pair ts h
-theorem C16_conv_is_cons_church (ts : List Term) (h : ∀ t ∈ ts, Closed t) :
-    ts.foldr (fun t acc => app2 Gen.CList.cons t acc) Gen.CList.nil ↠ churchList ts := conv_is_cons_church ts h
-theorem C16_conv_is_cons_scott (ts : List Term) (h : ∀ t ∈ ts, Closed t) :
-    ts.foldr (fun t acc => app2 Gen.SList.cons t acc) Gen.SList.nil ↠ scottList ts := conv_is_cons_scott ts h
-theorem C16_conv_is_cons_parigot (ts : List Term) (h : ∀ t ∈ ts, Closed t) :
-    ts.foldr (fun t acc => app2 Gen.GList.cons t acc) Gen.GList.nil ↠ parigotList ts :=
-  conv_is_cons_parigot ts h
-
-/-- with closed NORMAL elements (e.g. numerals) the conversion's result is THE normal form of the repeated cons, and
-NOR/HNO return it -/
-theorem C16_conv_computes_pair (ts : List Term) (h : ∀ t ∈ ts, Closed t) (hn : ∀ t ∈ ts, isNormal t = true) :
-    Computes (ts.foldr (fun t acc => app2 Gen.PList.cons t acc) Gen.PList.nil) (pairList ts) :=
-  computes_of_star (conv_is_cons_pair ts h) (normal_pairList ts hn)
-theorem C16_conv_computes_church (ts : List Term) (h : ∀ t ∈ ts, Closed t) (hn : ∀ t ∈ ts, isNormal t = true) :
-    Computes (ts.foldr (fun t acc => app2 Gen.CList.cons t acc) Gen.CList.nil) (churchList ts) :=
-  computes_of_star (conv_is_cons_church ts h) (normal_churchList ts hn)
-theorem C16_conv_computes_scott (ts : List Term) (h : ∀ t ∈ ts, Closed t) (hn : ∀ t ∈ ts, isNormal t = true) :
-    Computes (ts.foldr (fun t acc => app2 Gen.SList.cons t acc) Gen.SList.nil) (scottList ts) :=
-  computes_of_star (conv_is_cons_scott ts h) (normal_scottList ts hn)
-theorem C16_conv_computes_parigot (ts : List Term) (h : ∀ t ∈ ts, Closed t) (hn : ∀ t ∈ ts, isNormal t = true) :
-    Computes (ts.foldr (fun t acc => app2 Gen.GList.cons t acc) Gen.GList.nil) (parigotList ts) :=
-  computes_of_star (conv_is_cons_parigot ts h) (normal_parigotList ts hn)
-
-/-! ## B. the pair-list library: layers 1 and 2, for ALL lists -/
-
-namespace C16
-
-/-- the pair list of the Church numerals of `ns` — the Rust `vec![n₁.into_church(), …].into_pair_list()` -/
-abbrev cl (ns : List Nat) : Term := pairList (ns.map intoChurch)
-
-theorem closed_map {α : Type} {f : α → Term} (hf : ∀ a, Closed (f a)) (l : List α) : ∀ t ∈ l.map f, Closed t := by
-  intro t ht
-  obtain ⟨a, _, rfl⟩ := List.mem_map.1 ht
-  exact hf a
-theorem normal_map {α : Type} {f : α → Term} (hf : ∀ a, isNormal (f a) = true) (l : List α) :
-    ∀ t ∈ l.map f, isNormal t = true := by
-  intro t ht
-  obtain ⟨a, _, rfl⟩ := List.mem_map.1 ht
-  exact hf a
-
-theorem closed_nums (ns : List Nat) : ∀ t ∈ ns.map intoChurch, Closed t := closed_map closed_intoChurch ns
-theorem normal_nums (ns : List Nat) : ∀ t ∈ ns.map intoChurch, isNormal t = true :=
-  normal_map normal_intoChurch ns
-theorem normal_cl (ns : List Nat) : isNormal (cl ns) = true := normal_pairList _ (normal_nums ns)
-theorem closed_cl (ns : List Nat) : Closed (cl ns) := closed_pairList (closed_nums ns)
-
-/-- congruence: pointwise reduction of the elements lifts to the pair list -/
-theorem pairList_congr {α : Type} (f g : α → Term) (l : List α) (h : ∀ a ∈ l, f a ↠ g a) :
-    pairList (l.map f) ↠ pairList (l.map g) := by
-  induction l with
-  | nil => exact Star.refl _
-  | cons a l ih =>
-    show tuple2 (f a) (pairList (l.map f)) ↠ tuple2 (g a) (pairList (l.map g))
-    exact PairLibA.tuple_cong (h a (by simp)) (ih (fun b hb => h b (List.mem_cons_of_mem _ hb)))
-
-/-- the index form of the congruence -/
-theorem pairList_congr_idx (xs ys : List Term) (hl : xs.length = ys.length)
-    (hi : ∀ i (h1 : i < xs.length) (h2 : i < ys.length), xs[i] ↠ ys[i]) : pairList xs ↠ pairList ys := by
-  induction xs generalizing ys with
-  | nil =>
-    cases ys with
-    | nil => exact Star.refl _
-    | cons y ys => cases hl
-  | cons x xs ih =>
-    cases ys with
-    | nil => cases hl
-    | cons y ys =>
-      show tuple2 x (pairList xs) ↠ tuple2 y (pairList ys)
-      refine PairLibA.tuple_cong (hi 0 (by simp) (by simp)) (ih ys (by simpa using hl) ?_)
-      intro i h1 h2
-      have := hi (i + 1) (by simp; omega) (by simp; omega)
-      simpa using this
-
-theorem foldl_start_star (f : Term) {s s' : Term} (h : s ↠ s') (xs : List Term) :
-    xs.foldl (fun acc x => app2 f acc x) s ↠ xs.foldl (fun acc x => app2 f acc x) s' := by
-  induction xs generalizing s s' with
-  | nil => exact h
-  | cons x xs ih => exact ih (Star.congAppL _ (Star.congAppR _ h))
-
-/-- a left fold of numerals with a term `f` acting as `op` -/
-theorem foldl_nums (f : Term) (op : Nat → Nat → Nat)
-    (hop : ∀ a b, app2 f (intoChurch a) (intoChurch b) ↠ intoChurch (op a b)) (s : Nat) (ns : List Nat) :
-    (ns.map intoChurch).foldl (fun acc x => app2 f acc x) (intoChurch s) ↠ intoChurch (ns.foldl op s) := by
-  induction ns generalizing s with
-  | nil => exact Star.refl _
-  | cons n ns ih =>
-    simp only [List.map_cons, List.foldl_cons]
-    exact (foldl_start_star f (hop s n) _).trans (ih (op s n))
-
-/-- a right fold of numerals with a term `f` acting as `op` -/
-theorem foldr_nums (f : Term) (op : Nat → Nat → Nat)
-    (hop : ∀ a b, app2 f (intoChurch a) (intoChurch b) ↠ intoChurch (op a b)) (a : Nat) (ns : List Nat) :
-    (ns.map intoChurch).foldr (fun x acc => app2 f x acc) (intoChurch a) ↠ intoChurch (ns.foldr op a) := by
-  induction ns with
-  | nil => exact Star.refl _
-  | cons n ns ih =>
-    simp only [List.map_cons, List.foldr_cons]
-    exact (Star.congAppR _ ih).trans (hop n _)
-
-/-- a predicate on numbers, transported to terms through the Church decoder (junk value on non-numerals) -/
-def keepT (keep : Nat → Bool) (t : Term) : Bool :=
-  match Dec.decodeChurch t with
-  | some n => keep n
-  | none => false
-
-theorem keepT_num (keep : Nat → Bool) : keepT keep ∘ intoChurch = keep := by
-  funext n; simp [keepT, C12.church_decode]
-
-theorem keepT_spec (p : Term) (keep : Nat → Bool) (hk : ∀ n, app p (intoChurch n) ↠ fromBool (keep n))
-    (ns : List Nat) : ∀ x ∈ ns.map intoChurch, app p x ↠ fromBool (keepT keep x) := by
-  intro x hx
-  obtain ⟨n, _, rfl⟩ := List.mem_map.1 hx
-  have : keepT keep (intoChurch n) = keep n := congrFun (keepT_num keep) n
-  rw [this]; exact hk n
-
-theorem normal_tuple2_nums (l : List (Nat × Nat)) :
-    isNormal (pairList (l.map (fun p => tuple2 (intoChurch p.1) (intoChurch p.2)))) = true :=
-  normal_pairList _ (normal_map (fun _ => C13.normal_tuple2 (normal_intoChurch _) (normal_intoChurch _)) l)
-
-end C16
-open C16
-
-/-! ### B.1 first-order functions on lists of Church numerals -/
-
-theorem C16_length (ns : List Nat) : Computes (app Gen.PList.length (cl ns)) (intoChurch ns.length) := by
-  have h := plist_length_correct _ (closed_nums ns)
-  rw [List.length_map] at h
-  exact computes_of_star h (normal_intoChurch _)
-
-theorem C16_index (ns : List Nat) (i : Nat) (h : i < ns.length) :
-    Computes (app2 Gen.PList.index (intoChurch i) (cl ns)) (intoChurch ns[i]) := by
-  have h' := plist_index_correct _ (closed_nums ns) i (by simpa using h)
-  rw [List.getElem_map] at h'
-  exact computes_of_star h' (normal_intoChurch _)
-
-theorem C16_reverse (ns : List Nat) : Computes (app Gen.PList.reverse (cl ns)) (cl ns.reverse) := by
-  have h := plist_reverse_correct _ (closed_nums ns)
-  rw [← List.map_reverse] at h
-  exact computes_of_star h (normal_cl _)
-
-/-- `LIST n x₁ … xₙ` (the count `n` first, then the `n` elements as further arguments) builds the list -/
-theorem C16_list (ns : List Nat) :
-    Computes ((ns.map intoChurch).foldl (fun acc x => app acc x) (app Gen.PList.list (intoChurch ns.length)))
-      (cl ns) := by
-  have h := plist_list_correct plist_reverse_correct _ (closed_nums ns)
-  rw [List.length_map] at h
-  exact computes_of_star h (normal_cl _)
-
-theorem C16_append (ms ns : List Nat) :
-    Computes (app2 Gen.PList.append (cl ms) (cl ns)) (cl (ms ++ ns)) := by
-  have h := plist_append_correct _ _ (closed_nums ms) (closed_nums ns)
-  rw [← List.map_append] at h
-  exact computes_of_star h (normal_cl _)
-
-theorem C16_last (ns : List Nat) (h : ns ≠ []) :
-    Computes (app Gen.PList.last (cl ns)) (intoChurch (ns.getLast h)) := by
-  have h' := plist_last_correct _ (closed_nums ns) (by simpa using h)
-  rw [List.getLast_map] at h'
-  exact computes_of_star h' (normal_intoChurch _)
-
-theorem C16_init (ns : List Nat) (h : ns ≠ []) : Computes (app Gen.PList.init (cl ns)) (cl ns.dropLast) := by
-  have h' := plist_init_correct _ (closed_nums ns) (by simpa using h)
-  rw [← List.map_dropLast] at h'
-  exact computes_of_star h' (normal_cl _)
-
-/-- `init` is also defined on the empty list (and gives the empty list, like `Vec`-`dropLast`); `last` of the empty
-list gives `NIL`, which is not a numeral — hence the premise of `C16_last` -/
-theorem C16_init_nil : Computes (app Gen.PList.init (cl [])) (cl []) :=
-  computes_of_star plist_init_nil (normal_cl _)
-theorem C16_last_nil : Computes (app Gen.PList.last (cl [])) (cl []) :=
-  computes_of_star plist_last_nil (normal_cl _)
-
-theorem C16_zip (ms ns : List Nat) :
-    Computes (app2 Gen.PList.zip (cl ms) (cl ns))
-      (pairList ((ms.zip ns).map (fun p => tuple2 (intoChurch p.1) (intoChurch p.2)))) := by
-  have h := plist_zip_correct _ _ (closed_nums ms) (closed_nums ns)
-  rw [List.zip_map, List.map_map] at h
-  exact computes_of_star h (normal_tuple2_nums _)
-
-theorem C16_take (k : Nat) (ns : List Nat) :
-    Computes (app2 Gen.PList.take (intoChurch k) (cl ns)) (cl (ns.take k)) := by
-  have h := plist_take_correct k _ (closed_nums ns)
-  rw [← List.map_take] at h
-  exact computes_of_star h (normal_cl _)
-
-theorem C16_drop (k : Nat) (ns : List Nat) :
-    Computes (app2 Gen.PList.drop (intoChurch k) (cl ns)) (cl (ns.drop k)) := by
-  have h := plist_drop_correct k _ (closed_nums ns)
-  rw [← List.map_drop] at h
-  exact computes_of_star h (normal_cl _)
-
-theorem C16_replicate (k y : Nat) :
-    Computes (app2 Gen.PList.replicate (intoChurch k) (intoChurch y)) (cl (List.replicate k y)) := by
-  have h := plist_replicate_correct k _ (closed_intoChurch y)
-  rw [← List.map_replicate] at h
-  exact computes_of_star h (normal_cl _)
-
-/-! ### B.2 higher-order functions, for ANY closed function term whose action on numerals is known -/
-
-theorem C16_map (f : Term) (hf : Closed f) (g : Nat → Nat) (hg : ∀ n, app f (intoChurch n) ↠ intoChurch (g n))
-    (ns : List Nat) : Computes (app2 Gen.PList.map f (cl ns)) (cl (ns.map g)) := by
-  have h := plist_map_correct f hf _ (closed_nums ns)
-  rw [List.map_map] at h
-  have h2 := pairList_congr (app f ∘ intoChurch) (intoChurch ∘ g) ns (fun n _ => hg n)
-  rw [← List.map_map (g := intoChurch) (f := g)] at h2
-  exact computes_of_star (h.trans h2) (normal_cl _)
-
-theorem C16_foldl (f : Term) (hf : Closed f) (op : Nat → Nat → Nat)
-    (hop : ∀ a b, app2 f (intoChurch a) (intoChurch b) ↠ intoChurch (op a b)) (s : Nat) (ns : List Nat) :
-    Computes (app3 Gen.PList.foldl f (intoChurch s) (cl ns)) (intoChurch (ns.foldl op s)) :=
-  computes_of_star
-    ((plist_foldl_correct f _ hf (closed_intoChurch s) _ (closed_nums ns)).trans (foldl_nums f op hop s ns))
-    (normal_intoChurch _)
-
-theorem C16_foldr (f : Term) (hf : Closed f) (op : Nat → Nat → Nat)
-    (hop : ∀ a b, app2 f (intoChurch a) (intoChurch b) ↠ intoChurch (op a b)) (a : Nat) (ns : List Nat) :
-    Computes (app3 Gen.PList.foldr f (intoChurch a) (cl ns)) (intoChurch (ns.foldr op a)) :=
-  computes_of_star
-    ((plist_foldr_correct f _ hf (closed_intoChurch a) _ (closed_nums ns)).trans (foldr_nums f op hop a ns))
-    (normal_intoChurch _)
-
-theorem C16_filter (p : Term) (hp : Closed p) (keep : Nat → Bool)
-    (hk : ∀ n, app p (intoChurch n) ↠ fromBool (keep n)) (ns : List Nat) :
-    Computes (app2 Gen.PList.filter p (cl ns)) (cl (ns.filter keep)) := by
-  have h := plist_filter_correct p hp _ (closed_nums ns) (keepT keep) (keepT_spec p keep hk ns)
-  rw [List.filter_map, keepT_num] at h
-  exact computes_of_star h (normal_cl _)
-
-theorem C16_take_while (p : Term) (hp : Closed p) (keep : Nat → Bool)
-    (hk : ∀ n, app p (intoChurch n) ↠ fromBool (keep n)) (ns : List Nat) :
-    Computes (app2 Gen.PList.take_while p (cl ns)) (cl (ns.takeWhile keep)) := by
-  have h := plist_take_while_correct p hp _ (closed_nums ns) (keepT keep) (keepT_spec p keep hk ns)
-  rw [List.takeWhile_map, keepT_num] at h
-  exact computes_of_star h (normal_cl _)
-
-theorem C16_drop_while (p : Term) (hp : Closed p) (keep : Nat → Bool)
-    (hk : ∀ n, app p (intoChurch n) ↠ fromBool (keep n)) (ns : List Nat) :
-    Computes (app2 Gen.PList.drop_while p (cl ns)) (cl (ns.dropWhile keep)) := by
-  have h := plist_drop_while_correct p hp _ (closed_nums ns) (keepT keep) (keepT_spec p keep hk ns)
-  rw [List.dropWhile_map, keepT_num] at h
-  exact computes_of_star h (normal_cl _)
-
-theorem C16_zip_with (f : Term) (hf : Closed f) (op : Nat → Nat → Nat)
-    (hop : ∀ a b, app2 f (intoChurch a) (intoChurch b) ↠ intoChurch (op a b)) (ms ns : List Nat) :
-    Computes (app3 Gen.PList.zip_with f (cl ms) (cl ns)) (cl ((ms.zip ns).map (fun p => op p.1 p.2))) := by
-  have h := plist_zip_with_correct f hf _ _ (closed_nums ms) (closed_nums ns)
-  rw [List.zip_map, List.map_map] at h
-  have h2 := pairList_congr ((fun p : Term × Term => app2 f p.1 p.2) ∘ Prod.map intoChurch intoChurch)
-    (intoChurch ∘ (fun p : Nat × Nat => op p.1 p.2)) (ms.zip ns) (fun p _ => hop p.1 p.2)
-  rw [← List.map_map (g := intoChurch)] at h2
-  exact computes_of_star (h.trans h2) (normal_cl _)
-
-/-! ### B.3 the premises are satisfiable: concrete instances with the Church operations of C13 -/
-
-theorem C16_map_succ (ns : List Nat) :
-    Computes (app2 Gen.PList.map Gen.Church.succ (cl ns)) (cl (ns.map (· + 1))) :=
-  C16_map Gen.Church.succ (by decide) (· + 1) church_succ_correct ns
-
-theorem C16_foldl_add (s : Nat) (ns : List Nat) :
-    Computes (app3 Gen.PList.foldl Gen.Church.add (intoChurch s) (cl ns)) (intoChurch (ns.foldl (· + ·) s)) :=
-  C16_foldl Gen.Church.add (by decide) (· + ·) church_add_correct s ns
-
-theorem C16_foldr_add (a : Nat) (ns : List Nat) :
-    Computes (app3 Gen.PList.foldr Gen.Church.add (intoChurch a) (cl ns)) (intoChurch (ns.foldr (· + ·) a)) :=
-  C16_foldr Gen.Church.add (by decide) (· + ·) church_add_correct a ns
-
-/-- a non-commutative, non-associative operation distinguishes the two folds: `((s - n₁) - n₂) - …` -/
-theorem C16_foldl_sub (s : Nat) (ns : List Nat) :
-    Computes (app3 Gen.PList.foldl Gen.Church.sub (intoChurch s) (cl ns)) (intoChurch (ns.foldl (· - ·) s)) :=
-  C16_foldl Gen.Church.sub (by decide) (· - ·) church_sub_correct s ns
-
-/-- … versus `n₁ - (n₂ - (… - a))` -/
-theorem C16_foldr_sub (a : Nat) (ns : List Nat) :
-    Computes (app3 Gen.PList.foldr Gen.Church.sub (intoChurch a) (cl ns)) (intoChurch (ns.foldr (· - ·) a)) :=
-  C16_foldr Gen.Church.sub (by decide) (· - ·) church_sub_correct a ns
-
-theorem C16_filter_is_zero (ns : List Nat) :
-    Computes (app2 Gen.PList.filter Gen.Church.is_zero (cl ns)) (cl (ns.filter (· == 0))) :=
-  C16_filter Gen.Church.is_zero (by decide) (· == 0) church_is_zero_correct ns
-
-theorem C16_take_while_is_zero (ns : List Nat) :
-    Computes (app2 Gen.PList.take_while Gen.Church.is_zero (cl ns)) (cl (ns.takeWhile (· == 0))) :=
-  C16_take_while Gen.Church.is_zero (by decide) (· == 0) church_is_zero_correct ns
-
-theorem C16_drop_while_is_zero (ns : List Nat) :
-    Computes (app2 Gen.PList.drop_while Gen.Church.is_zero (cl ns)) (cl (ns.dropWhile (· == 0))) :=
-  C16_drop_while Gen.Church.is_zero (by decide) (· == 0) church_is_zero_correct ns
-
-theorem C16_zip_with_sub (ms ns : List Nat) :
-    Computes (app3 Gen.PList.zip_with Gen.Church.sub (cl ms) (cl ns))
-      (cl ((ms.zip ns).map (fun p => p.1 - p.2))) :=
-  C16_zip_with Gen.Church.sub (by decide) (· - ·) church_sub_correct ms ns
-
-/-! ### B.4 the general layer-1 forms: lists of ARBITRARY closed terms (not only numerals) -/
-
-theorem C16_length_terms (xs : List Term) (hxs : ∀ t ∈ xs, Closed t) :
-    app Gen.PList.length (pairList xs) ↠ intoChurch xs.length := plist_length_correct xs hxs
-
-theorem C16_index_terms (xs : List Term) (hxs : ∀ t ∈ xs, Closed t) (i : Nat) (h : i < xs.length) :
-    app2 Gen.PList.index (intoChurch i) (pairList xs) ↠ xs[i] := plist_index_correct xs hxs i h
-
-theorem C16_reverse_terms (xs : List Term) (hxs : ∀ t ∈ xs, Closed t) :
-    app Gen.PList.reverse (pairList xs) ↠ pairList xs.reverse := plist_reverse_correct xs hxs
-
-theorem C16_append_terms (xs ys : List Term) (hxs : ∀ t ∈ xs, Closed t) (hys : ∀ t ∈ ys, Closed t) :
-    app2 Gen.PList.append (pairList xs) (pairList ys) ↠ pairList (xs ++ ys) :=
-  plist_append_correct xs ys hxs hys
-
-theorem C16_map_terms (f : Term) (hf : Closed f) (xs : List Term) (hxs : ∀ t ∈ xs, Closed t) :
-    app2 Gen.PList.map f (pairList xs) ↠ pairList (xs.map (app f)) := plist_map_correct f hf xs hxs
-
-theorem C16_foldl_terms (f s : Term) (hf : Closed f) (hs : Closed s) (xs : List Term) (hxs : ∀ t ∈ xs, Closed t) :
-    app3 Gen.PList.foldl f s (pairList xs) ↠ xs.foldl (fun acc x => app2 f acc x) s :=
-  plist_foldl_correct f s hf hs xs hxs
-
-theorem C16_foldr_terms (f a : Term) (hf : Closed f) (ha : Closed a) (xs : List Term) (hxs : ∀ t ∈ xs, Closed t) :
-    app3 Gen.PList.foldr f a (pairList xs) ↠ xs.foldr (fun x acc => app2 f x acc) a :=
-  plist_foldr_correct f a hf ha xs hxs
-
-theorem C16_filter_terms (p : Term) (hp : Closed p) (xs : List Term) (hxs : ∀ t ∈ xs, Closed t)
-    (keep : Term → Bool) (hkeep : ∀ x ∈ xs, app p x ↠ fromBool (keep x)) :
-    app2 Gen.PList.filter p (pairList xs) ↠ pairList (xs.filter keep) :=
-  plist_filter_correct p hp xs hxs keep hkeep
-
-theorem C16_take_terms (k : Nat) (xs : List Term) (hxs : ∀ t ∈ xs, Closed t) :
-    app2 Gen.PList.take (intoChurch k) (pairList xs) ↠ pairList (xs.take k) := plist_take_correct k xs hxs
-
-theorem C16_drop_terms (k : Nat) (xs : List Term) (hxs : ∀ t ∈ xs, Closed t) :
-    app2 Gen.PList.drop (intoChurch k) (pairList xs) ↠ pairList (xs.drop k) := plist_drop_correct k xs hxs
-
-theorem C16_replicate_terms (k : Nat) (y : Term) (hy : Closed y) :
-    app2 Gen.PList.replicate (intoChurch k) y ↠ pairList (List.replicate k y) := plist_replicate_correct k y hy
-
-theorem C16_last_terms (xs : List Term) (hxs : ∀ t ∈ xs, Closed t) (hne : xs ≠ []) :
-    app Gen.PList.last (pairList xs) ↠ xs.getLast hne := plist_last_correct xs hxs hne
-
-theorem C16_init_terms (xs : List Term) (hxs : ∀ t ∈ xs, Closed t) (hne : xs ≠ []) :
-    app Gen.PList.init (pairList xs) ↠ pairList xs.dropLast := plist_init_correct xs hxs hne
-
-theorem C16_zip_terms (xs ys : List Term) (hxs : ∀ t ∈ xs, Closed t) (hys : ∀ t ∈ ys, Closed t) :
-    app2 Gen.PList.zip (pairList xs) (pairList ys) ↠ pairList ((xs.zip ys).map (fun p => tuple2 p.1 p.2)) :=
-  plist_zip_correct xs ys hxs hys
-
-theorem C16_zip_with_terms (f : Term) (hf : Closed f) (xs ys : List Term) (hxs : ∀ t ∈ xs, Closed t)
-    (hys : ∀ t ∈ ys, Closed t) :
-    app3 Gen.PList.zip_with f (pairList xs) (pairList ys) ↠ pairList ((xs.zip ys).map (fun p => app2 f p.1 p.2)) :=
-  plist_zip_with_correct f hf xs ys hxs hys
-
-/-! ## C. layer 3 (BOUNDED): HAP terminates with the right result on a grid of short lists.
-`Grid.runsTo .HAP fuel t n = true` implies `∃ c, reduce .HAP 0 fuel t = some (n, c)` (`Grid.runsTo_spec`); `FUEL` is the
-constant of C13 (100000).  The grids: all lists of length ≤ 3 over {0, 1} (`lists3`), pairs of lists of length ≤ 2
-(`lists2`) for the binary functions, counts 0..3 for take/drop/replicate, start values 0..2 for the folds.  The lists of
-the Church/Scott/Parigot list modules hold numerals of the SAME encoding (what the Rust `vec![1, 2].into_scott()`
-builds); pair lists hold Church numerals. -/
-
-namespace C16
-def lists2 : List (List Nat) := [[], [0], [1], [0,0], [0,1], [1,0], [1,1]]
-def lists3 : List (List Nat) :=
-  [[], [0], [1], [0,0], [0,1], [1,0], [1,1], [0,0,0], [0,0,1], [0,1,0], [0,1,1], [1,0,0], [1,0,1], [1,1,0], [1,1,1]]
-end C16
-
-/-! ### C.1 constructors and observers of the four encodings -/
-
-set_option maxRecDepth 100000 in
-theorem C16_grid_is_nil_pair : lists3.all (fun ns =>
-    Grid.runsTo .HAP FUEL (app Gen.PList.is_nil (pairList (ns.map intoChurch))) (fromBool ns.isEmpty)) = true := by decide +kernel
-
-set_option maxRecDepth 100000 in
-theorem C16_grid_head_pair : lists3.all (fun ns => match ns with
-    | [] => true
-    | n :: _ => Grid.runsTo .HAP FUEL (app Gen.PList.head (pairList (ns.map intoChurch))) (intoChurch n)) = true := by decide +kernel
-
-set_option maxRecDepth 100000 in
-theorem C16_grid_tail_pair : lists3.all (fun ns => match ns with
-    | [] => true
-    | _ :: r => Grid.runsTo .HAP FUEL (app Gen.PList.tail (pairList (ns.map intoChurch))) (pairList (r.map intoChurch))) = true := by
-  decide +kernel
-
-set_option maxRecDepth 100000 in
-theorem C16_grid_conv_pair : lists3.all (fun ns =>
-    Grid.runsTo .HAP FUEL ((ns.map intoChurch).foldr (fun t acc => app2 Gen.PList.cons t acc) Gen.PList.nil)
-      (pairList (ns.map intoChurch))) = true := by decide +kernel
-
-set_option maxRecDepth 100000 in
-theorem C16_grid_is_nil_church : lists3.all (fun ns =>
-    Grid.runsTo .HAP FUEL (app Gen.CList.is_nil (churchList (ns.map intoChurch))) (fromBool ns.isEmpty)) = true := by decide +kernel
-
-set_option maxRecDepth 100000 in
-theorem C16_grid_head_church : lists3.all (fun ns => match ns with
-    | [] => true
-    | n :: _ => Grid.runsTo .HAP FUEL (app Gen.CList.head (churchList (ns.map intoChurch))) (intoChurch n)) = true := by decide +kernel
-
-set_option maxRecDepth 100000 in
-theorem C16_grid_tail_church : lists3.all (fun ns => match ns with
-    | [] => true
-    | _ :: r => Grid.runsTo .HAP FUEL (app Gen.CList.tail (churchList (ns.map intoChurch))) (churchList (r.map intoChurch))) = true := by
-  decide +kernel
-
-set_option maxRecDepth 100000 in
-theorem C16_grid_conv_church : lists3.all (fun ns =>
-    Grid.runsTo .HAP FUEL ((ns.map intoChurch).foldr (fun t acc => app2 Gen.CList.cons t acc) Gen.CList.nil)
-      (churchList (ns.map intoChurch))) = true := by decide +kernel
-
-set_option maxRecDepth 100000 in
-theorem C16_grid_is_nil_scott : lists3.all (fun ns =>
-    Grid.runsTo .HAP FUEL (app Gen.SList.is_nil (scottList (ns.map intoScott))) (fromBool ns.isEmpty)) = true := by decide +kernel
-
-set_option maxRecDepth 100000 in
-theorem C16_grid_head_scott : lists3.all (fun ns => match ns with
-    | [] => true
-    | n :: _ => Grid.runsTo .HAP FUEL (app Gen.SList.head (scottList (ns.map intoScott))) (intoScott n)) = true := by decide +kernel
-
-set_option maxRecDepth 100000 in
-theorem C16_grid_tail_scott : lists3.all (fun ns => match ns with
-    | [] => true
-    | _ :: r => Grid.runsTo .HAP FUEL (app Gen.SList.tail (scottList (ns.map intoScott))) (scottList (r.map intoScott))) = true := by
-  decide +kernel
-
-set_option maxRecDepth 100000 in
-theorem C16_grid_conv_scott : lists3.all (fun ns =>
-    Grid.runsTo .HAP FUEL ((ns.map intoScott).foldr (fun t acc => app2 Gen.SList.cons t acc) Gen.SList.nil)
-      (scottList (ns.map intoScott))) = true := by decide +kernel
-
-set_option maxRecDepth 100000 in
-theorem C16_grid_is_nil_parigot : lists3.all (fun ns =>
-    Grid.runsTo .HAP FUEL (app Gen.GList.is_nil (parigotList (ns.map intoParigot))) (fromBool ns.isEmpty)) = true := by decide +kernel
-
-set_option maxRecDepth 100000 in
-theorem C16_grid_head_parigot : lists3.all (fun ns => match ns with
-    | [] => true
-    | n :: _ => Grid.runsTo .HAP FUEL (app Gen.GList.head (parigotList (ns.map intoParigot))) (intoParigot n)) = true := by decide +kernel
-
-set_option maxRecDepth 100000 in
-theorem C16_grid_tail_parigot : lists3.all (fun ns => match ns with
-    | [] => true
-    | _ :: r => Grid.runsTo .HAP FUEL (app Gen.GList.tail (parigotList (ns.map intoParigot))) (parigotList (r.map intoParigot))) = true := by
-  decide +kernel
-
-set_option maxRecDepth 100000 in
-theorem C16_grid_conv_parigot : lists3.all (fun ns =>
-    Grid.runsTo .HAP FUEL ((ns.map intoParigot).foldr (fun t acc => app2 Gen.GList.cons t acc) Gen.GList.nil)
-      (parigotList (ns.map intoParigot))) = true := by decide +kernel
-
-/-! ### C.2 the pair-list library -/
-
-set_option maxRecDepth 100000 in
-theorem C16_grid_length : lists3.all (fun ns =>
-    Grid.runsTo .HAP FUEL (app Gen.PList.length (cl ns)) (intoChurch ns.length)) = true := by decide +kernel
-
-set_option maxRecDepth 100000 in
-theorem C16_grid_index : lists3.all (fun ns => (List.range ns.length).all fun i =>
-    Grid.runsTo .HAP FUEL (app2 Gen.PList.index (intoChurch i) (cl ns)) (intoChurch (ns.getD i 0))) = true := by decide +kernel
-
-set_option maxRecDepth 100000 in
-theorem C16_grid_reverse : lists3.all (fun ns =>
-    Grid.runsTo .HAP FUEL (app Gen.PList.reverse (cl ns)) (cl ns.reverse)) = true := by decide +kernel
-
-set_option maxRecDepth 100000 in
-theorem C16_grid_list : lists3.all (fun ns =>
-    Grid.runsTo .HAP FUEL
-      ((ns.map intoChurch).foldl (fun acc x => app acc x) (app Gen.PList.list (intoChurch ns.length))) (cl ns)) = true := by decide +kernel
-
-set_option maxRecDepth 100000 in
-theorem C16_grid_append : lists2.all (fun ms => lists2.all fun ns =>
-    Grid.runsTo .HAP FUEL (app2 Gen.PList.append (cl ms) (cl ns)) (cl (ms ++ ns))) = true := by decide +kernel
-
-set_option maxRecDepth 100000 in
-theorem C16_grid_last : lists3.all (fun ns => ns.isEmpty ||
-    Grid.runsTo .HAP FUEL (app Gen.PList.last (cl ns)) (intoChurch (ns.getLastD 0))) = true := by decide +kernel
-
-set_option maxRecDepth 100000 in
-theorem C16_grid_init : lists3.all (fun ns =>
-    Grid.runsTo .HAP FUEL (app Gen.PList.init (cl ns)) (cl ns.dropLast)) = true := by decide +kernel
-
-set_option maxRecDepth 100000 in
-theorem C16_grid_zip : lists2.all (fun ms => lists2.all fun ns =>
-    Grid.runsTo .HAP FUEL (app2 Gen.PList.zip (cl ms) (cl ns))
-      (pairList ((ms.zip ns).map (fun p => tuple2 (intoChurch p.1) (intoChurch p.2))))) = true := by decide +kernel
-
-set_option maxRecDepth 100000 in
-theorem C16_grid_take : lists3.all (fun ns => (List.range 4).all fun k =>
-    Grid.runsTo .HAP FUEL (app2 Gen.PList.take (intoChurch k) (cl ns)) (cl (ns.take k))) = true := by decide +kernel
-
-set_option maxRecDepth 100000 in
-theorem C16_grid_drop : lists3.all (fun ns => (List.range 4).all fun k =>
-    Grid.runsTo .HAP FUEL (app2 Gen.PList.drop (intoChurch k) (cl ns)) (cl (ns.drop k))) = true := by decide +kernel
-
-set_option maxRecDepth 100000 in
-theorem C16_grid_replicate : (Grid.range2 3 2).all (fun (k, y) =>
-    Grid.runsTo .HAP FUEL (app2 Gen.PList.replicate (intoChurch k) (intoChurch y)) (cl (List.replicate k y))) = true := by decide +kernel
-
-set_option maxRecDepth 100000 in
-theorem C16_grid_map_succ : lists3.all (fun ns =>
-    Grid.runsTo .HAP FUEL (app2 Gen.PList.map Gen.Church.succ (cl ns)) (cl (ns.map (· + 1)))) = true := by decide +kernel
-
-set_option maxRecDepth 100000 in
-theorem C16_grid_foldl_add : lists3.all (fun ns => (List.range 3).all fun s =>
-    Grid.runsTo .HAP FUEL (app3 Gen.PList.foldl Gen.Church.add (intoChurch s) (cl ns)) (intoChurch (ns.foldl (· + ·) s))) = true := by decide +kernel
-
-set_option maxRecDepth 100000 in
-theorem C16_grid_foldr_add : lists3.all (fun ns => (List.range 3).all fun a =>
-    Grid.runsTo .HAP FUEL (app3 Gen.PList.foldr Gen.Church.add (intoChurch a) (cl ns)) (intoChurch (ns.foldr (· + ·) a))) = true := by decide +kernel
-
-set_option maxRecDepth 100000 in
-theorem C16_grid_foldl_sub : lists3.all (fun ns => (List.range 3).all fun s =>
-    Grid.runsTo .HAP FUEL (app3 Gen.PList.foldl Gen.Church.sub (intoChurch s) (cl ns)) (intoChurch (ns.foldl (· - ·) s))) = true := by decide +kernel
-
-set_option maxRecDepth 100000 in
-theorem C16_grid_foldr_sub : lists3.all (fun ns => (List.range 3).all fun a =>
-    Grid.runsTo .HAP FUEL (app3 Gen.PList.foldr Gen.Church.sub (intoChurch a) (cl ns)) (intoChurch (ns.foldr (· - ·) a))) = true := by decide +kernel
-
-set_option maxRecDepth 100000 in
-theorem C16_grid_filter_is_zero : lists3.all (fun ns =>
-    Grid.runsTo .HAP FUEL (app2 Gen.PList.filter Gen.Church.is_zero (cl ns)) (cl (ns.filter (· == 0)))) = true := by decide +kernel
-
-set_option maxRecDepth 100000 in
-theorem C16_grid_take_while_is_zero : lists3.all (fun ns =>
-    Grid.runsTo .HAP FUEL (app2 Gen.PList.take_while Gen.Church.is_zero (cl ns)) (cl (ns.takeWhile (· == 0)))) = true := by decide +kernel
-
-set_option maxRecDepth 100000 in
-theorem C16_grid_drop_while_is_zero : lists3.all (fun ns =>
-    Grid.runsTo .HAP FUEL (app2 Gen.PList.drop_while Gen.Church.is_zero (cl ns)) (cl (ns.dropWhile (· == 0)))) = true := by decide +kernel
-
-set_option maxRecDepth 100000 in
-theorem C16_grid_zip_with_sub : lists2.all (fun ms => lists2.all fun ns =>
-    Grid.runsTo .HAP FUEL (app3 Gen.PList.zip_with Gen.Church.sub (cl ms) (cl ns))
-      (cl ((ms.zip ns).map (fun p => p.1 - p.2)))) = true := by decide +kernel
-
-/-! ## D. non-vacuity: the premises are met by concrete lists -/
-
-/-- NOR returns `[3, 2, 1]` for `reverse [1, 2, 3]` -/
-example : ∃ fuel c, reduce .NOR 0 fuel (app Gen.PList.reverse (cl [1, 2, 3])) = some (cl [3, 2, 1], c) :=
-  (C16_reverse [1, 2, 3]).nor
-
-/-- HNO returns `[2 - 1, 5 - 7, 3 - 0] = [1, 0, 3]` for `zip_with sub [2, 5, 3, 9] [1, 7, 0]` -/
-example : ∃ fuel c, reduce .HNO 0 fuel (app3 Gen.PList.zip_with Gen.Church.sub (cl [2, 5, 3, 9]) (cl [1, 7, 0]))
-    = some (cl [1, 0, 3], c) := (C16_zip_with_sub [2, 5, 3, 9] [1, 7, 0]).hno
-
-/-- the two folds differ on a non-associative operation: `(10 - 3) - 2 = 5`, `3 - (2 - 10) = 3` -/
-example : (∃ fuel c, reduce .NOR 0 fuel (app3 Gen.PList.foldl Gen.Church.sub (intoChurch 10) (cl [3, 2]))
-      = some (intoChurch 5, c)) ∧
-    (∃ fuel c, reduce .HNO 0 fuel (app3 Gen.PList.foldr Gen.Church.sub (intoChurch 10) (cl [3, 2]))
-      = some (intoChurch 3, c)) :=
-  ⟨(C16_foldl_sub 10 [3, 2]).nor, (C16_foldr_sub 10 [3, 2]).hno⟩
-
-/-- the observers of the Scott and Parigot lists on lists of numerals of the same encoding (`vec![4, 0].into_scott()`) -/
-example : ∃ fuel c, reduce .HNO 0 fuel (app Gen.SList.tail (scottList [intoScott 4, intoScott 0]))
-    = some (scottList [intoScott 0], c) :=
-  (C16_observers_scott.tail (intoScott 4) [intoScott 0] (by decide) (by decide)).hno
-
-example : ∃ fuel c, reduce .NOR 0 fuel (app Gen.GList.head (parigotList [intoParigot 2, intoParigot 1]))
-    = some (intoParigot 2, c) :=
-  (C16_observers_parigot.head (intoParigot 2) [intoParigot 1] (by decide) (by decide)).nor
-
-/-- the conversion is the normal form of repeated cons, Church list of Church numerals -/
-example : ∃ fuel c, reduce .NOR 0 fuel
-    (app2 Gen.CList.cons (intoChurch 1) (app2 Gen.CList.cons (intoChurch 2) Gen.CList.nil))
-    = some (churchList [intoChurch 1, intoChurch 2], c) :=
-  (C16_conv_computes_church [intoChurch 1, intoChurch 2] (by decide) (by decide)).nor
-
-/-- a layer-3 fact read back as a statement about the reducer: HAP returns `[0, 1]` for `append [0] [1]` -/
-example : ∃ c, reduce .HAP 0 FUEL (app2 Gen.PList.append (cl [0]) (cl [1])) = some (cl [0, 1], c) :=
-  Grid.runsTo_spec (by decide +kernel)
+open Term Spec Enc C16
+
+/-! ## E. HAP terminates with the right result, for ALL lists -/
+
+theorem C16_is_nil_pairList_hap (ns : List Nat) :
+    ∃ fuel c, reduce .HAP 0 fuel (app Gen.PList.is_nil (cl ns)) =
+      some (fromBool ns.isEmpty, c) :=
+  is_nil_pairList_reduce_hap ns
+
+theorem C16_head_pairList_hap (n : Nat) (ns : List Nat) :
+    ∃ fuel c, reduce .HAP 0 fuel (app Gen.PList.head (cl (n :: ns))) =
+      some (intoChurch n, c) :=
+  head_pairList_reduce_hap n ns
+
+theorem C16_tail_pairList_hap (n : Nat) (ns : List Nat) :
+    ∃ fuel c, reduce .HAP 0 fuel (app Gen.PList.tail (cl (n :: ns))) =
+      some (cl ns, c) :=
+  tail_pairList_reduce_hap n ns
+
+theorem C16_is_nil_churchList_hap (ns : List Nat) :
+    ∃ fuel c, reduce .HAP 0 fuel (app Gen.CList.is_nil (churchList (ns.map intoChurch))) =
+      some (fromBool ns.isEmpty, c) :=
+  is_nil_churchList_reduce_hap ns
+
+theorem C16_head_churchList_hap (n : Nat) (ns : List Nat) :
+    ∃ fuel c, reduce .HAP 0 fuel (app Gen.CList.head (churchList ((n :: ns).map intoChurch))) =
+      some (intoChurch n, c) :=
+  head_churchList_reduce_hap n ns
+
+theorem C16_tail_churchList_hap (n : Nat) (ns : List Nat) :
+    ∃ fuel c, reduce .HAP 0 fuel (app Gen.CList.tail (churchList ((n :: ns).map intoChurch))) =
+      some (churchList (ns.map intoChurch), c) :=
+  tail_churchList_reduce_hap n ns
+
+theorem C16_is_nil_scottList_hap (ns : List Nat) :
+    ∃ fuel c, reduce .HAP 0 fuel (app Gen.SList.is_nil (scottList (ns.map intoScott))) =
+      some (fromBool ns.isEmpty, c) :=
+  is_nil_scottList_reduce_hap ns
+
+theorem C16_head_scottList_hap (n : Nat) (ns : List Nat) :
+    ∃ fuel c, reduce .HAP 0 fuel (app Gen.SList.head (scottList ((n :: ns).map intoScott))) =
+      some (intoScott n, c) :=
+  head_scottList_reduce_hap n ns
+
+theorem C16_tail_scottList_hap (n : Nat) (ns : List Nat) :
+    ∃ fuel c, reduce .HAP 0 fuel (app Gen.SList.tail (scottList ((n :: ns).map intoScott))) =
+      some (scottList (ns.map intoScott), c) :=
+  tail_scottList_reduce_hap n ns
+
+theorem C16_is_nil_parigotList_hap (ns : List Nat) :
+    ∃ fuel c, reduce .HAP 0 fuel (app Gen.GList.is_nil (parigotList (ns.map intoParigot))) =
+      some (fromBool ns.isEmpty, c) :=
+  is_nil_parigotList_reduce_hap ns
+
+theorem C16_head_parigotList_hap (n : Nat) (ns : List Nat) :
+    ∃ fuel c, reduce .HAP 0 fuel (app Gen.GList.head (parigotList ((n :: ns).map intoParigot))) =
+      some (intoParigot n, c) :=
+  head_parigotList_reduce_hap n ns
+
+theorem C16_tail_parigotList_hap (n : Nat) (ns : List Nat) :
+    ∃ fuel c, reduce .HAP 0 fuel (app Gen.GList.tail (parigotList ((n :: ns).map intoParigot))) =
+      some (parigotList (ns.map intoParigot), c) :=
+  tail_parigotList_reduce_hap n ns
+
+theorem C16_conv_is_cons_pair_hap (ns : List Nat) :
+    ∃ fuel c, reduce .HAP 0 fuel (ns.foldr (fun n acc => app2 Gen.PList.cons (intoChurch n) acc) Gen.PList.nil) =
+      some (cl ns, c) :=
+  conv_is_cons_pair_reduce_hap ns
+
+theorem C16_conv_is_cons_church_hap (ns : List Nat) :
+    ∃ fuel c, reduce .HAP 0 fuel (ns.foldr (fun n acc => app2 Gen.CList.cons (intoChurch n) acc) Gen.CList.nil) =
+      some (churchList (ns.map intoChurch), c) :=
+  conv_is_cons_church_reduce_hap ns
+
+theorem C16_conv_is_cons_scott_hap (ns : List Nat) :
+    ∃ fuel c, reduce .HAP 0 fuel (ns.foldr (fun n acc => app2 Gen.SList.cons (intoScott n) acc) Gen.SList.nil) =
+      some (scottList (ns.map intoScott), c) :=
+  conv_is_cons_scott_reduce_hap ns
+
+theorem C16_conv_is_cons_parigot_hap (ns : List Nat) :
+    ∃ fuel c, reduce .HAP 0 fuel (ns.foldr (fun n acc => app2 Gen.GList.cons (intoParigot n) acc) Gen.GList.nil) =
+      some (parigotList (ns.map intoParigot), c) :=
+  conv_is_cons_parigot_reduce_hap ns
+
+theorem C16_length_hap (ns : List Nat) :
+    ∃ fuel c, reduce .HAP 0 fuel (app Gen.PList.length (cl ns)) =
+      some (intoChurch ns.length, c) :=
+  plist_length_reduce_hap ns
+
+theorem C16_reverse_hap (ns : List Nat) :
+    ∃ fuel c, reduce .HAP 0 fuel (app Gen.PList.reverse (cl ns)) =
+      some (cl ns.reverse, c) :=
+  plist_reverse_reduce_hap ns
+
+theorem C16_append_hap (ms ns : List Nat) :
+    ∃ fuel c, reduce .HAP 0 fuel (app2 Gen.PList.append (cl ms) (cl ns)) =
+      some (cl (ms ++ ns), c) :=
+  plist_append_reduce_hap ms ns
+
+theorem C16_index_hap (ns : List Nat) (i : Nat) (h : i < ns.length) :
+    ∃ fuel c, reduce .HAP 0 fuel (app2 Gen.PList.index (intoChurch i) (cl ns)) =
+      some (intoChurch ns[i], c) :=
+  plist_index_reduce_hap ns i h
+
+theorem C16_last_hap (ns : List Nat) (h : ns ≠ []) :
+    ∃ fuel c, reduce .HAP 0 fuel (app Gen.PList.last (cl ns)) =
+      some (intoChurch (ns.getLast h), c) :=
+  plist_last_reduce_hap ns h
+
+theorem C16_init_hap (ns : List Nat) (h : ns ≠ []) :
+    ∃ fuel c, reduce .HAP 0 fuel (app Gen.PList.init (cl ns)) =
+      some (cl ns.dropLast, c) :=
+  plist_init_reduce_hap ns h
+
+theorem C16_map_succ_hap (ns : List Nat) :
+    ∃ fuel c, reduce .HAP 0 fuel (app2 Gen.PList.map Gen.Church.succ (cl ns)) = some (cl (ns.map (· + 1)), c) :=
+  plist_map_succ_reduce_hap ns
+
+theorem C16_foldl_add_hap (s : Nat) (ns : List Nat) :
+    ∃ fuel c, reduce .HAP 0 fuel (app3 Gen.PList.foldl Gen.Church.add (intoChurch s) (cl ns)) =
+      some (intoChurch (ns.foldl (· + ·) s), c) :=
+  plist_foldl_add_reduce_hap s ns
+
+theorem C16_foldr_add_hap (a : Nat) (ns : List Nat) :
+    ∃ fuel c, reduce .HAP 0 fuel (app3 Gen.PList.foldr Gen.Church.add (intoChurch a) (cl ns)) =
+      some (intoChurch (ns.foldr (· + ·) a), c) :=
+  plist_foldr_add_reduce_hap a ns
+
+theorem C16_foldl_sub_hap (s : Nat) (ns : List Nat) :
+    ∃ fuel c, reduce .HAP 0 fuel (app3 Gen.PList.foldl Gen.Church.sub (intoChurch s) (cl ns)) =
+      some (intoChurch (ns.foldl (· - ·) s), c) :=
+  plist_foldl_sub_reduce_hap s ns
+
+theorem C16_foldr_sub_hap (a : Nat) (ns : List Nat) :
+    ∃ fuel c, reduce .HAP 0 fuel (app3 Gen.PList.foldr Gen.Church.sub (intoChurch a) (cl ns)) =
+      some (intoChurch (ns.foldr (· - ·) a), c) :=
+  plist_foldr_sub_reduce_hap a ns
+
+theorem C16_filter_is_zero_hap (ns : List Nat) :
+    ∃ fuel c, reduce .HAP 0 fuel (app2 Gen.PList.filter Gen.Church.is_zero (cl ns)) =
+      some (cl (ns.filter (· == 0)), c) :=
+  plist_filter_is_zero_reduce_hap ns
+
+theorem C16_take_while_is_zero_hap (ns : List Nat) :
+    ∃ fuel c, reduce .HAP 0 fuel (app2 Gen.PList.take_while Gen.Church.is_zero (cl ns)) =
+      some (cl (ns.takeWhile (· == 0)), c) :=
+  plist_take_while_is_zero_reduce_hap ns
+
+theorem C16_drop_while_is_zero_hap (ns : List Nat) :
+    ∃ fuel c, reduce .HAP 0 fuel (app2 Gen.PList.drop_while Gen.Church.is_zero (cl ns)) =
+      some (cl (ns.dropWhile (· == 0)), c) :=
+  plist_drop_while_is_zero_reduce_hap ns
+
+theorem C16_zip_hap (ms ns : List Nat) :
+    ∃ fuel c, reduce .HAP 0 fuel (app2 Gen.PList.zip (cl ms) (cl ns)) =
+      some (pairList ((ms.zip ns).map (fun p => tuple2 (intoChurch p.1) (intoChurch p.2))), c) :=
+  plist_zip_reduce_hap ms ns
+
+theorem C16_zip_with_sub_hap (ms ns : List Nat) :
+    ∃ fuel c, reduce .HAP 0 fuel (app3 Gen.PList.zip_with Gen.Church.sub (cl ms) (cl ns)) =
+      some (cl ((ms.zip ns).map (fun p => p.1 - p.2)), c) :=
+  plist_zip_with_sub_reduce_hap ms ns
+
+theorem C16_take_hap (k : Nat) (ns : List Nat) :
+    ∃ fuel c, reduce .HAP 0 fuel (app2 Gen.PList.take (intoChurch k) (cl ns)) = some (cl (ns.take k), c) :=
+  plist_take_reduce_hap k ns
+
+theorem C16_drop_hap (k : Nat) (ns : List Nat) :
+    ∃ fuel c, reduce .HAP 0 fuel (app2 Gen.PList.drop (intoChurch k) (cl ns)) = some (cl (ns.drop k), c) :=
+  plist_drop_reduce_hap k ns
+
+theorem C16_replicate_hap (k y : Nat) :
+    ∃ fuel c, reduce .HAP 0 fuel (app2 Gen.PList.replicate (intoChurch k) (intoChurch y)) =
+      some (cl (List.replicate k y), c) :=
+  plist_replicate_reduce_hap k y
+
+theorem C16_list_hap (ns : List Nat) :
+    ∃ fuel c, reduce .HAP 0 fuel ((ns.map intoChurch).foldl app (app Gen.PList.list (intoChurch ns.length))) =
+      some (cl ns, c) :=
+  plist_list_reduce_hap ns
+
+
+/-! non-vacuity: a concrete instance (a three-element list), so the statements are not about nothing -/
+example : ∃ fuel c, reduce .HAP 0 fuel (app Gen.PList.reverse (cl [1, 2, 3])) = some (cl [3, 2, 1], c) :=
+  C16_reverse_hap [1, 2, 3]
+example : ∃ fuel c, reduce .HAP 0 fuel (app3 Gen.PList.foldl Gen.Church.add (intoChurch 0) (cl [1, 2, 3])) =
+    some (intoChurch 6, c) := C16_foldl_add_hap 0 [1, 2, 3]
 
 end LC
